@@ -383,6 +383,13 @@ def fan_targets(index: RepoIndex, rep, rule: str) -> None:
                     a0, n0 = unit_vec(e.right, depth - 1)
                     return a0 + aff_of(e.left, leaf), n0
                 raise
+        if isinstance(e, ast.Call) and isinstance(e.func, ast.Attribute) and \
+                e.func.attr == 'astype' and len(e.args) == 1 and \
+                src(e.args[0]) in ('float', 'np.float64', 'np.float_'):
+            return unit_vec(e.func.value, depth - 1)       # the same numbers as floats
+        if isinstance(e, ast.Call) and src(e.func) in ('np.asarray', 'np.array') and \
+                len(e.args) == 1 and set(k.arg for k in e.keywords) <= {'dtype'}:
+            return unit_vec(e.args[0], depth - 1)
         if isinstance(e, ast.Call) and src(e.func) in ('np.linspace', 'numpy.linspace'):
             kw = {k.arg: k.value for k in e.keywords}
             args = list(e.args)
